@@ -40,6 +40,14 @@ def run(ck):
     ck.clause("C05.4", "seed peaks = top `count` by score, descending")
     ck.clause("C05.5", "'best' mode rows are sorted by query id")
     ck.clause("C05.6", "'best' mode: a query's single-pass record is left out exactly when the query has a joined record")
+    ck.clause("C05.7", "every query (and every second-pass fragment) is offered for alignment: one parallel task per query (as C10.6)")
+    from ..report import RuleView
+    from .c10 import per_query_tasks
+    per_query_tasks(RuleView(ck, {"C10.6": "C05.7"}))
+    ck.clause("C05.8", "the candidates of a query come from both strands of every reference: each strand's seeds are offered iff "
+                       "that strand has peaks (as C11.4 / C11.7)")
+    from . import c11
+    c11.run(RuleView(ck, {"C11.7": "C05.8"}))
 
     create, rows_term, cpath = filter_fn(ck)
     if rows_term is None:
